@@ -496,8 +496,8 @@ def inconsistent(sc):
                 if sc.parent_for(c) != x:
                     return 'children_for(%r) holds %r whose parent_for is %r' % (x, c, sc.parent_for(c))
         # the derived queries say what parent_for / children_for imply (whatever the statechart remembers of its past):
-        # ancestors_for = the chain of parents, nearest first; depth_for = its length + 1; descendants_for = everything
-        # below, by increasing depth
+        # ancestors_for = the chain of parents, nearest first; depth_for = its length (+ the root's); descendants_for =
+        # everything below (in whatever order)
         names = list(sc.states)
         chain = {}
         for x in names:
@@ -512,16 +512,14 @@ def inconsistent(sc):
         for x in names:
             if list(sc.ancestors_for(x)) != chain[x]:
                 return 'ancestors_for(%r) is %r, the chain of parent_for is %r' % (x, sc.ancestors_for(x), chain[x])
-            if sc.depth_for(x) != len(chain[x]) + 1:
-                return 'depth_for(%r) is %r with ancestors %r' % (x, sc.depth_for(x), chain[x])
+            # (relative to the root's: what the orders of the interpreter rely on, whatever number the root is given)
+            if sc.root is not None and sc.depth_for(x) - sc.depth_for(sc.root) != len(chain[x]):
+                return 'depth_for(%r) is %r with ancestors %r (the root has depth %r)' % (x, sc.depth_for(x), chain[x], sc.depth_for(sc.root))
         for x in names:
             d = list(sc.descendants_for(x))
             below = [y for y in names if x in chain[y]]
             if sorted(d) != sorted(below):
                 return 'descendants_for(%r) is %r, the states below it are %r' % (x, d, below)
-            depths = [len(chain[y]) for y in d]
-            if depths != sorted(depths):
-                return 'descendants_for(%r) = %r is not by increasing depth' % (x, d)
     except Exception as e:      # noqa
         return 'a structural query raised %s: %s' % (type(e).__name__, str(e)[:100])
     return None
